@@ -32,36 +32,44 @@ package fans
 // ======================================= HwMonFan ===================================================
 
 //@ func (*HwMonFan).GetId
+//@   params (fan)
 //@   ensures result == fan.Config.ID
 //@   modifies nothing
 
 //@ func (*HwMonFan).ShouldNeverStop
+//@   params (fan)
 //@   ensures result == fan.Config.NeverStop
 //@   modifies nothing
 
 //@ func (*HwMonFan).GetMinPwm
+//@   params (fan)
 //@   props C13
 //@   ensures result == hwMin(fan)
 //@   ensures[C13.nostop-zero] !fan.Config.NeverStop ==> result == 0
 //@   modifies nothing
 
 //@ func (*HwMonFan).GetMaxPwm
+//@   params (fan)
 //@   ensures result == hwMax(fan)
 //@   modifies nothing
 
 //@ func (*HwMonFan).GetStartPwm
+//@   params (fan)
 //@   ensures result == hwStart(fan)
 //@   modifies nothing
 
 //@ func (*HwMonFan).GetRpmAvg
+//@   params (fan)
 //@   ensures same(result, fan.RpmMovingAvg)
 //@   modifies nothing
 
 //@ func (*HwMonFan).SetRpmAvg
+//@   params (fan, rpm)
 //@   ensures same(fan.RpmMovingAvg, rpm)
 //@   modifies fan.RpmMovingAvg
 
 //@ func (*HwMonFan).GetPwm
+//@   params (fan)
 //@   returns (result, err)
 //@   requires hwWF(fan)
 //@   ensures err == nil ==> result == fileInt[hwPwmPath(fan)] && fan.Pwm == result
@@ -70,6 +78,7 @@ package fans
 //@   modifies fan.Pwm, lastReadFailed
 
 //@ func (*HwMonFan).GetRpm
+//@   params (fan)
 //@   ghostret lastRpmRead := result
 //@   ensures lastRpmRead == result
 //@   returns (result, err)
@@ -80,6 +89,7 @@ package fans
 //@   modifies fan.Rpm, lastReadFailed, lastRpmRead
 
 //@ func (*HwMonFan).SetPwm
+//@   params (fan, pwm)
 //@   requires hwWF(fan)
 //@   ghostdo pwmWrites[fan] := pwmWrites[fan] + 1
 //@   ghostdo lastPwm[fan] := pwm
@@ -91,12 +101,14 @@ package fans
 //@   modifies pwmWrites, lastPwm, fileInt, lastPwmErr
 
 //@ func (*HwMonFan).GetPwmEnabled
+//@   params (fan)
 //@   requires hwWF(fan)
 //@   ensures result1 == nil ==> result0 == fileInt[hwEnablePath(fan)]
 //@   ensures lastReadFailed == (result1 != nil)
 //@   modifies lastReadFailed
 
 //@ func (*HwMonFan).Supports
+//@   params (fan, feature)
 //@   ghostret supportsResult[feature] := result
 //@   ensures supportsResult == old(supportsResult)[feature := result]
 //@   requires hwWF(fan)
@@ -105,33 +117,42 @@ package fans
 // ======================================= FileFan ====================================================
 
 //@ func (*FileFan).GetId
+//@   params (fan)
 //@   ensures result == fan.Config.ID
 //@   modifies nothing
 //@ func (*FileFan).ShouldNeverStop
+//@   params (fan)
 //@   ensures result == fan.Config.NeverStop
 //@   modifies nothing
 //@ func (*FileFan).GetMinPwm
+//@   params (fan)
 //@   props C13 C02
 //@   ensures[C02.configured] fan.Config.NeverStop && fan.Config.MinPwm != nil ==> result == *fan.Config.MinPwm
 //@   ensures result == 0
 //@   modifies nothing
 //@ func (*FileFan).GetMaxPwm
+//@   params (fan)
 //@   ensures result == 255
 //@   modifies nothing
 //@ func (*FileFan).GetStartPwm
+//@   params (fan)
 //@   ensures result == 1
 //@   modifies nothing
 //@ func (*FileFan).GetRpmAvg
+//@   params (fan)
 //@   ensures same(result, float64(fan.Rpm))
 //@   modifies nothing
 //@ func (*FileFan).SetRpmAvg
+//@   params (fan, rpm)
 //@   ensures fan.Rpm == int(rpm)
 //@   modifies fan.Rpm
 //@ func (*FileFan).GetPwm
+//@   params (fan)
 //@   requires fileWF(fan)
 //@   ensures err != nil ==> fan.Pwm == old(fan.Pwm)
 //@   modifies fan.Pwm, lastReadFailed
 //@ func (*FileFan).GetRpm
+//@   params (fan)
 //@   returns (result, err)
 //@   ghostret lastRpmRead := result
 //@   ensures lastRpmRead == result
@@ -141,6 +162,7 @@ package fans
 //@   ensures err != nil ==> fan.Rpm == old(fan.Rpm)
 //@   modifies fan.Rpm, lastReadFailed, lastRpmRead
 //@ func (*FileFan).SetPwm
+//@   params (fan, pwm)
 //@   requires fileWF(fan)
 //@   ghostdo pwmWrites[fan] := pwmWrites[fan] + 1
 //@   ghostdo lastPwm[fan] := pwm
@@ -149,6 +171,7 @@ package fans
 //@   ensures lastPwmErr == old(lastPwmErr)[fan := (err != nil)]
 //@   modifies pwmWrites, lastPwm, fileInt, lastPwmErr
 //@ func (*FileFan).Supports
+//@   params (fan, feature)
 //@   ghostret supportsResult[feature] := result
 //@   ensures supportsResult == old(supportsResult)[feature := result]
 //@   requires fileWF(fan)
@@ -158,34 +181,43 @@ package fans
 // ======================================= CmdFan =====================================================
 
 //@ func (*CmdFan).GetId
+//@   params (fan)
 //@   ensures result == fan.Config.ID
 //@   modifies nothing
 //@ func (*CmdFan).ShouldNeverStop
+//@   params (fan)
 //@   ensures result == fan.Config.NeverStop
 //@   modifies nothing
 //@ func (*CmdFan).GetMinPwm
+//@   params (fan)
 //@   props C13 C02
 //@   ensures[C02.configured] fan.Config.NeverStop && fan.Config.MinPwm != nil ==> result == *fan.Config.MinPwm
 //@   ensures result == 0
 //@   modifies nothing
 //@ func (*CmdFan).GetMaxPwm
+//@   params (fan)
 //@   ensures result == 255
 //@   modifies nothing
 //@ func (*CmdFan).GetStartPwm
+//@   params (fan)
 //@   ensures result == 1
 //@   modifies nothing
 //@ func (*CmdFan).GetRpmAvg
+//@   params (fan)
 //@   ensures same(result, float64(fan.Rpm))
 //@   modifies nothing
 //@ func (*CmdFan).SetRpmAvg
+//@   params (fan, rpm)
 //@   ensures fan.Rpm == int(rpm)
 //@   modifies fan.Rpm
 //@ func (*CmdFan).GetPwm
+//@   params (fan)
 //@   props C19
 //@   requires cmdWF(fan)
 //@   ensures err != nil ==> fan.Pwm == old(fan.Pwm)
 //@   modifies fan.Pwm, procWorld, started
 //@ func (*CmdFan).GetRpm
+//@   params (fan)
 //@   ghostret lastRpmRead := result
 //@   ensures lastRpmRead == result
 //@   props C19
@@ -196,6 +228,7 @@ package fans
 //@   ensures err != nil ==> fan.Rpm == old(fan.Rpm)
 //@   modifies fan.Rpm, procWorld, started, lastRpmRead, supportsResult
 //@ func (*CmdFan).SetPwm
+//@   params (fan, pwm)
 //@   props C19
 //@   requires cmdWF(fan)
 //@   ghostdo pwmWrites[fan] := pwmWrites[fan] + 1
@@ -207,6 +240,7 @@ package fans
 //@   loop 1 "for _, arg := range conf.Args"
 //@     invariant -1 <= rangeindex && arrayOf(args) >= old(W)
 //@ func (*CmdFan).Supports
+//@   params (fan, feature)
 //@   ghostret supportsResult[feature] := result
 //@   ensures supportsResult == old(supportsResult)[feature := result]
 //@   requires cmdWF(fan)
@@ -217,16 +251,20 @@ package fans
 
 // ---- setters --------------------------------------------------------------------------------------
 //@ func (*HwMonFan).SetMinPwm
+//@   params (fan, pwm, force)
 //@   ensures (fan.Config.MinPwm == nil || force) ==> fan.MinPwm != nil && *fan.MinPwm == pwm
 //@   ensures !(fan.Config.MinPwm == nil || force) ==> fan.MinPwm == old(fan.MinPwm)
 //@   modifies fan.MinPwm
 //@ func (*FileFan).SetMinPwm
+//@   params (fan, pwm, force)
 //@   modifies nothing
 //@ func (*CmdFan).SetMinPwm
+//@   params (fan, pwm, force)
 //@   modifies nothing
 
 // ---- control mode -----------------------------------------------------------------------------------
 //@ func (*HwMonFan).SetPwmEnabled
+//@   params (fan, value)
 //@   props C03
 //@   requires hwWF(fan)
 //@   ensures[C03.readback C05] err == nil ==> fileInt[hwEnablePath(fan)] == value || lastReadFailed
@@ -236,9 +274,11 @@ package fans
 //@   ensures forall p string :: p != hwEnablePath(fan) ==> fileInt[p] == old(fileInt)[p]
 //@   modifies modeWrites, lastMode, fileInt, lastReadFailed
 //@ func (*FileFan).SetPwmEnabled
+//@   params (fan, value)
 //@   ensures err == nil
 //@   modifies nothing
 //@ func (*CmdFan).SetPwmEnabled
+//@   params (fan, value)
 //@   ensures err == nil
 //@   modifies nothing
 
@@ -253,25 +293,31 @@ package fans
 //@ pure hwCfg(h *HwMonFan) bool = (h.Config.MinPwm != nil ==> h.MinPwm != nil && *h.MinPwm == *h.Config.MinPwm) && (h.Config.StartPwm != nil ==> h.StartPwm != nil && *h.StartPwm == *h.Config.StartPwm) && (h.Config.MaxPwm != nil ==> h.MaxPwm != nil && *h.MaxPwm == *h.Config.MaxPwm)
 
 //@ func (*HwMonFan).GetFanRpmCurveData
+//@   params (fan)
 //@   ensures result == fan.FanCurveData
 //@   modifies nothing
 //@ func (*FileFan).GetFanRpmCurveData
+//@   params (fan)
 //@   ensures result == addrof(interpolated)
 //@   modifies nothing
 //@ func (*CmdFan).GetFanRpmCurveData
+//@   params (fan)
 //@   ensures result == addrof(interpolated)
 //@   modifies nothing
 
 //@ func (*HwMonFan).SetStartPwm
+//@   params (fan, pwm, force)
 //@   ensures (fan.Config.StartPwm == nil || force) ==> fan.StartPwm != nil && *fan.StartPwm == pwm
 //@   ensures !(fan.Config.StartPwm == nil || force) ==> fan.StartPwm == old(fan.StartPwm)
 //@   modifies fan.StartPwm
 //@ func (*HwMonFan).SetMaxPwm
+//@   params (fan, pwm, force)
 //@   ensures (fan.Config.MaxPwm == nil || force) ==> fan.MaxPwm != nil && *fan.MaxPwm == pwm
 //@   ensures !(fan.Config.MaxPwm == nil || force) ==> fan.MaxPwm == old(fan.MaxPwm)
 //@   modifies fan.MaxPwm
 
 //@ func ComputePwmBoundaries
+//@   params (fan)
 //@   props C13
 //@   requires fanWF(fan) && dataPtr(fan) != nil && rpmDataOK(*dataPtr(fan))
 //@   ensures[C13.max]       isMaxOf(*dataPtr(fan), maxPwm)
@@ -293,6 +339,7 @@ package fans
 //@ pure noData(p *map[int]float64) bool = p == nil || len(*p) <= 0
 
 //@ func (*HwMonFan).AttachFanRpmCurveData
+//@   params (fan, curveData)
 //@   props C13 C02
 //@   requires hwWF(fan)
 //@   requires[C13.pre -C15 -C16] hwCfg(fan) && (curveData != nil ==> rpmDataOK(*curveData))
@@ -306,15 +353,18 @@ package fans
 //@   ensures[C13.min]     !noData(curveData) && fan.Config.MinPwm == nil ==> fan.MinPwm != nil && (fan.Config.StartPwm == nil ==> *fan.MinPwm == hwStart(fan))
 //@   modifies fan.FanCurveData, fan.StartPwm, fan.MaxPwm, fan.MinPwm
 //@ func (*FileFan).AttachFanRpmCurveData
+//@   params (fan, curveData)
 //@   props C13
 //@   ensures err == nil
 //@   modifies nothing
 //@ func (*CmdFan).AttachFanRpmCurveData
+//@   params (fan, curveData)
 //@   props C13
 //@   ensures err == nil
 //@   modifies nothing
 
 //@ func NewFan
+//@   params (config)
 //@   props C13 C02
 //@   returns (fan, err)
 //@   ensures[C13.new C02] config.HwMon != nil ==> err == nil && fan is *HwMonFan && fan.(*HwMonFan) != nil && hwCfg(fan.(*HwMonFan)) && fresh(fan.(*HwMonFan))
@@ -323,20 +373,26 @@ package fans
 // ---- RPM bookkeeping (C10) ------------------------------------------------------------------------------
 //@ pure rpmAvg(fan Fan) float64 = fan is *HwMonFan ? fan.(*HwMonFan).RpmMovingAvg : (fan is *FileFan ? float64(fan.(*FileFan).Rpm) : float64(fan.(*CmdFan).Rpm))
 //@ func (*HwMonFan).UpdateFanRpmCurveValue
+//@   params (fan, pwm, rpm)
 //@   requires fan.FanCurveData != nil ==> *fan.FanCurveData != nil
 //@   ensures fan.FanCurveData != nil && *fan.FanCurveData != nil
 //@   modifies fan.FanCurveData, (*fan.FanCurveData)[_]
 //@ func (*FileFan).UpdateFanRpmCurveValue
+//@   params (fan, pwm, rpm)
 //@   modifies nothing
 //@ func (*CmdFan).UpdateFanRpmCurveValue
+//@   params (fan, pwm, rpm)
 //@   modifies nothing
 
 //@ func (*HwMonFan).GetCurveId
+//@   params (fan)
 //@   ensures result == fan.Config.Curve
 //@   modifies nothing
 //@ func (*FileFan).GetCurveId
+//@   params (fan)
 //@   ensures result == fan.Config.Curve
 //@   modifies nothing
 //@ func (*CmdFan).GetCurveId
+//@   params (fan)
 //@   ensures result == fan.Config.Curve
 //@   modifies nothing
